@@ -7,5 +7,5 @@ python3 tools/translate.py --repo /repo --out lean/A5/Gen/Tables.lean
 (cd harness && cargo build --release --quiet && cargo build --quiet)
 (cd lean && lake build a5driver)
 python3 tools/gen_runtime.py --driver lean/.lake/build/bin/a5driver --harness harness/target/release/a5h --out lean/A5/Gen/Runtime.lean
-(cd lean && lake build A5 a5driver A5.Props.All $(ls A5/Props/C*.lean | sed 's/\.lean$//; s#/#.#g'))
+(cd lean && lake build A5 a5driver A5.Props.StateInventory A5.Props.All $(ls A5/Props/C*.lean | sed 's/\.lean$//; s#/#.#g'))
 echo setup done
